@@ -333,6 +333,20 @@ def replay(cfg, ops, seed=0, always_consistent=False, clock=1600000000.0):
     env.reset(seed, clock)
     s = Session(cfg, seed, always_consistent).new()
     for op in ops:
+        if op['op'] == 'reopen':
+            # marker: master the image here and continue on a fresh object that opened it
+            img, oc = s.write()
+            if not oc.ok:
+                s.reopen_failed = 'write: ' + oc.summary()
+                break
+            s2, oc2 = s.reopen(img)
+            if not oc2.ok:
+                s.reopen_failed = 'open: ' + oc2.summary()
+                s2.close()
+                break
+            s.close()
+            s = s2
+            continue
         s.step(op)
     return s
 
